@@ -15,6 +15,9 @@ from harness.common.ctx import Timeout, time_limit
 
 EXE = "c15_model"
 FUEL = 4000
+MAX_TIMEOUTS = 6      # per batch: after that many 5 s timeouts the remaining cases are skipped
+MAX_VIOLATIONS = 40   # per batch: further failing inputs are only counted
+MAX_CONFIRM = 2       # timeouts re-run with a 60 s limit before being reported
 
 
 # ------------------------------------------------------------------ generators
@@ -22,27 +25,93 @@ def lit_pool(nv):
     return [(v, b) for v in range(nv) for b in (True, False)]
 
 
+def gen_ksat(rng, nv, nc, widths, dup=0.0):
+    """Random clauses without unit/empty clauses: the solver has to decide, learn and backjump."""
+    cnf = []
+    for _ in range(nc):
+        k = min(rng.choice(widths), nv)
+        vs = rng.sample(range(nv), k)
+        cl = [(v, rng.random() < 0.5) for v in vs]
+        if dup and rng.random() < dup:                       # repeated / complementary literal
+            v, b = rng.choice(cl)
+            cl.insert(rng.randint(0, len(cl)), (v, b if rng.random() < 0.5 else not b))
+        cnf.append(cl)
+    return cnf
+
+
+def gen_structured(rng):
+    """Small hard families, clause and literal order shuffled, variables renamed."""
+    kind = rng.randint(0, 3)
+    if kind == 0:                                            # all 2^n sign patterns over n variables (minus a few)
+        n = rng.randint(2, 4)
+        cnf = [[(v, bool(bits >> v & 1)) for v in range(n)] for bits in range(2 ** n)]
+        for _ in range(rng.choice([0, 0, 1, 2])):
+            cnf.pop(rng.randrange(len(cnf)))
+    elif kind == 1:                                          # pigeonhole: p pigeons, h holes
+        h = rng.randint(2, 3)
+        p = h + rng.choice([0, 1, 1])
+        var = lambda i, j: i * h + j                         # noqa
+        cnf = [[(var(i, j), True) for j in range(h)] for i in range(p)]
+        cnf += [[(var(i, j), False), (var(k, j), False)] for j in range(h) for i in range(p) for k in range(i + 1, p)]
+    elif kind == 2:                                          # parity chain x0^x1, x1^x2, ... with a contradictory or consistent end
+        n = rng.randint(3, 6)
+        cnf = []
+        for v in range(n - 1):
+            cnf += [[(v, True), (v + 1, True)], [(v, False), (v + 1, False)]]
+        a, b = (True, True) if (n % 2 == 1) == (rng.random() < 0.5) else (True, False)
+        cnf += [[(0, a), (n - 1, b)], [(0, not a), (n - 1, not b)]]
+    else:                                                    # implication ladder ending in a conflict deep below the decisions
+        n = rng.randint(3, 6)
+        cnf = [[(v, False), (v + 1, True)] for v in range(n - 1)]
+        cnf += [[(n - 1, False), (n, True), (n + 1, True)], [(n - 1, False), (n, False), (n + 1, True)],
+                [(n - 1, False), (n, True), (n + 1, False)], [(n - 1, False), (n, False), (n + 1, False)]]
+        if rng.random() < 0.5:
+            cnf.append([(0, True), (n, True)])
+    cnf = [rng.sample(cl, len(cl)) for cl in cnf]
+    rng.shuffle(cnf)
+    names = list({v for cl in cnf for v, _ in cl})
+    perm = dict(zip(names, rng.sample(names, len(names))))
+    flip = {v: rng.random() < 0.3 for v in names}
+    return [[(perm[v], b != flip[v]) for v, b in cl] for cl in cnf]
+
+
+def gen_messy(rng):
+    """Anything goes: unit and empty clauses, repeated and complementary literals, repeated clauses."""
+    r = rng.random()
+    if r < 0.5:
+        nv, nc, w = rng.randint(1, 4), rng.randint(0, 8), 3
+    else:
+        nv, nc, w = rng.randint(3, 8), rng.randint(4, 30), 4
+    pool = lit_pool(nv)
+    cnf = []
+    for _ in range(nc):
+        k = rng.choice([1, 2, 2, 2, 3, 3, 3, w]) if rng.random() < 0.97 else 0
+        cl = [rng.choice(pool) for _ in range(k)]            # duplicates and tautologies on purpose
+        if rng.random() < 0.6:
+            cl = list(dict.fromkeys(cl))
+        cnf.append(cl)
+    if rng.random() < 0.3 and cnf:                           # duplicate clauses
+        cnf.append(list(rng.choice(cnf)))
+    return cnf
+
+
 def gen_random(rng, n):
     out = []
     for _ in range(n):
         r = rng.random()
-        if r < 0.45:
-            nv, nc, w = rng.randint(1, 4), rng.randint(0, 8), 3
-        elif r < 0.85:
-            nv, nc, w = rng.randint(3, 8), rng.randint(4, 30), 4
-        else:
-            nv, nc, w = rng.randint(6, 12), rng.randint(20, 60), 4
-        pool = lit_pool(nv)
-        cnf = []
-        for _ in range(nc):
-            k = rng.choice([0, 1, 1, 2, 2, 2, 3, 3, 3, w]) if rng.random() < 0.9 else rng.randint(0, w)
-            cl = [rng.choice(pool) for _ in range(k)]       # duplicates and tautologies on purpose
-            if rng.random() < 0.7:                           # mostly: plain clauses
-                cl = list(dict.fromkeys(cl))
-            cnf.append(cl)
-        if rng.random() < 0.3 and cnf:                       # duplicate clauses
-            cnf.append(list(rng.choice(cnf)))
-        out.append(cnf)
+        if r < 0.20:
+            out.append(gen_messy(rng))
+        elif r < 0.35:
+            out.append(gen_structured(rng))
+        elif r < 0.60:                                       # 3-SAT around the threshold
+            nv = rng.randint(3, 9)
+            out.append(gen_ksat(rng, nv, int(nv * rng.uniform(3.5, 6.5)), [3], dup=0.05))
+        elif r < 0.85:                                       # mixed 2/3-SAT: long propagation chains
+            nv = rng.randint(3, 10)
+            out.append(gen_ksat(rng, nv, int(nv * rng.uniform(1.8, 4.0)), [2, 2, 3, 3, 4], dup=0.05))
+        else:                                                # larger
+            nv = rng.randint(8, 12)
+            out.append(gen_ksat(rng, nv, rng.randint(25, 60), [2, 3, 3, 3, 4], dup=0.02))
     return out
 
 
@@ -422,44 +491,123 @@ def read_operator_priorities(ctx):
 
 
 # ------------------------------------------------------------------ main
+def judge(cnf, res):
+    """Property oracle on one answer of the implementation: None, or (kind, what, extra)."""
+    if res[0] in ("raise", "other", "input-modified"):
+        return ("crash:%s" % (res[-1],), "solve_cnf %s" % (res,), {})
+    truth = brute_sat(cnf)
+    if res[0] == "sat":
+        if not satisfies(cnf, res[1]):
+            return ("bad-assignment", "solve_cnf returned an assignment that does not satisfy the CNF", {})
+        if truth is False:
+            return ("wrong-verdict", "satisfiable reported for an unsatisfiable CNF", {})
+    elif res[0] == "unsat":
+        if truth is True:
+            return ("wrong-verdict", "unsatisfiable reported for a satisfiable CNF", {})
+        ok, why, _ = replay_trace(cnf, res[1])
+        if not ok:
+            return ("bad-trace", "resolution trace invalid (%s)" % why, {"why": why})
+    return None
+
+
+def shrink_cnf(sat, cnf, kind, budget=400):
+    """Greedy: drop clauses, then literals, while the same kind of failure persists."""
+    def fails(c):
+        r = run_impl(sat, c, 2)[0]
+        if r[0] == "timeout":
+            return None
+        v = judge(c, r)
+        return r if v is not None and v[0] == kind else None
+    cur = [list(cl) for cl in cnf]
+    best = fails(cur)
+    if best is None:
+        return cnf, None
+    changed = True
+    while changed and budget > 0:
+        changed = False
+        for i in range(len(cur) - 1, -1, -1):
+            budget -= 1
+            cand = cur[:i] + cur[i + 1:]
+            r = fails(cand)
+            if r is not None:
+                cur, best, changed = cand, r, True
+        for i in range(len(cur)):
+            for k in range(len(cur[i]) - 1, -1, -1):
+                budget -= 1
+                cand = cur[:i] + [cur[i][:k] + cur[i][k + 1:]] + cur[i + 1:]
+                r = fails(cand)
+                if r is not None:
+                    cur, best, changed = cand, r, True
+    return cur, best
+
+
 def check_cases(ctx, sat, cases, label, limit=5):
     lines = []
     impl = []
+    ntimeouts = 0
     for cnf in cases:
-        res, var_order, rec = run_impl(sat, cnf, limit)
+        if ntimeouts >= MAX_TIMEOUTS:                        # the tree is broken; do not spend the budget on more of the same
+            res, var_order, rec = ("skipped",), [], []
+        else:
+            res, var_order, rec = run_impl(sat, cnf, limit)
+            ntimeouts += res[0] == "timeout"
         impl.append((res, var_order, rec))
         lines.append(sexp.dumps(["solve", FUEL, s_cnf(cnf), var_order, s_cnf(rec)]))
+    # the verified Lean checker judges every 'unsatisfiable' answer of the implementation
+    cert_idx = [i for i, (res, _, _) in enumerate(impl) if res[0] == "unsat"]
+    lines += [sexp.dumps(["checkproofs", s_cnf(cases[i]), [[k, p] for k, p in impl[i][0][1]]]) for i in cert_idx]
+    nconfirmed = 0
+    nviol = 0
     out = ctx.lean_driver(EXE, lines) if lines else []
+    cert = dict(zip(cert_idx, out[len(cases):])) if out is not None else {}
     ndis = 0
     for idx, cnf in enumerate(cases):
         res, var_order, rec = impl[idx]
         nontriv = len(cnf) >= 2 and any(len(c) >= 2 for c in cnf)
         ctx.case(("cnf", cnf), nontrivial=nontriv)
         ctx.count("%s:%s" % (label, res[0]))
+        nres = len(rec)
+        ctx.count("resolution-calls:%s" % ("0" if nres == 0 else "1-4" if nres < 5 else "5-19" if nres < 20 else "20+"))
+        if res[0] == "unsat":
+            ctx.count("learned-clauses:%s" % (len(res[1]) if len(res[1]) < 4 else "4+"))
         # --- property oracle on the implementation
-        key_base = json.dumps(cnf)
+        if res[0] == "skipped":
+            continue
         if res[0] == "timeout":
-            # confirm with a long limit so that a loaded machine cannot cause an alarm
-            res2, _, _ = run_impl(sat, cnf, 60)
+            # confirm with a long limit so that a loaded machine cannot cause an alarm (first few only)
+            if nconfirmed >= MAX_CONFIRM:
+                ctx.count("timeout-unconfirmed")
+                continue
+            nconfirmed += 1
+            res2, var_order, rec = run_impl(sat, cnf, 60)
             if res2[0] == "timeout":
                 ctx.violation("nontermination:" + classify(cnf), "solve_cnf does not terminate (60 s) on %s" % cnf, {"cnf": cnf, "kind": "nontermination"})
                 continue
             res = res2
-        if res[0] in ("raise", "other", "input-modified"):
-            ctx.violation("crash:%s:%s" % (res[-1], classify(cnf)), "solve_cnf %s on %s" % (res, cnf), {"cnf": cnf, "result": res})
+            impl[idx] = (res, var_order, rec)
+            redo = ctx.lean_driver(EXE, [sexp.dumps(["solve", FUEL, s_cnf(cnf), var_order, s_cnf(rec)])])
+            if out is not None and redo is not None:
+                out[idx] = redo[0]
+        v = judge(cnf, res)
+        if v is None and res[0] == "unsat" and cert.get(idx, "T") != "T":
+            v = ("bad-trace", "the verified trace checker (Lean checkProofs) rejects the proofs", {"why": "lean-checker"})
+            ctx.count("lean-checker-only-rejection")
+        if v is not None:
+            nviol += 1
+            if nviol > MAX_VIOLATIONS:
+                ctx.count("violations-not-listed")
+                continue
+            kind, what, extra = v
+            small, sres = (cnf, None)
+            if nviol <= 3 and extra.get("why") != "lean-checker":
+                small, sres = shrink_cnf(sat, cnf, kind)
+            if sres is None:
+                small, sres = cnf, res
+            key = ("%s:%s" % (kind, classify(small))) if kind.startswith("crash") else "%s:%s" % (kind, json.dumps(small))
+            ctx.violation(key, "%s: %s -> %s" % (what, small, sres), dict({"cnf": small, "result": sres, "kind": kind, "found_on": cnf}, **extra))
             continue
-        truth = brute_sat(cnf)
-        if res[0] == "sat":
-            if not satisfies(cnf, res[1]):
-                ctx.violation("bad-assignment:" + key_base, "solve_cnf returned an assignment that does not satisfy %s" % cnf, {"cnf": cnf, "result": res})
-            elif truth is False:
-                ctx.violation("wrong-verdict:" + key_base, "satisfiable reported for unsatisfiable CNF %s" % cnf, {"cnf": cnf, "result": res})
-        elif res[0] == "unsat":
-            if truth is True:
-                ctx.violation("wrong-verdict:" + key_base, "unsatisfiable reported for satisfiable CNF %s" % cnf, {"cnf": cnf, "result": res})
-            ok, why, final = replay_trace(cnf, res[1])
-            if not ok:
-                ctx.violation("bad-trace:" + key_base, "resolution trace invalid (%s) for %s" % (why, cnf), {"cnf": cnf, "result": res, "why": why})
+        if res[0] == "unsat":
+            ctx.count("unsat-certified-by-lean-checker")
         # --- correspondence with the model
         if out is not None:
             m = parse_model(out[idx])
@@ -503,7 +651,7 @@ def run(ctx):
     rng = ctx.rng("cnf")
     corpus = load_corpus(ctx)
     check_cases(ctx, sat, corpus, "corpus")
-    cases = gen_random(rng, ctx.scale(1500, 30000))
+    cases = gen_random(rng, ctx.scale(3000, 40000))
     for c in cases[:3]:
         ctx.sample({"cnf": c})
     have_model = check_cases(ctx, sat, cases, "random")
